@@ -54,6 +54,313 @@ func withTimeout(d time.Duration, wg *sync.WaitGroup) bool {
 	}
 }
 
+// freshQueueClasses first-uses the queue class (and with it the list and array classes) of element types that are
+// new to the process, a few per call, while the queues under test are busy: the class registries are
+// process-wide, and a queue's calls go through them.
+var freshQueueUsers = []func(){
+	func() {
+		q := col.Queue[[1]int8](lib.Notation()).MakeWithCapacity(2)
+		q.AddValue([1]int8{})
+		q.RemoveHead()
+		q.CloseQueue()
+	},
+	func() {
+		q := col.Queue[[2]int8](lib.Notation()).MakeWithCapacity(2)
+		q.AddValue([2]int8{})
+		q.RemoveHead()
+		q.CloseQueue()
+	},
+	func() {
+		q := col.Queue[[3]int8](lib.Notation()).MakeWithCapacity(2)
+		q.AddValue([3]int8{})
+		q.RemoveHead()
+		q.CloseQueue()
+	},
+	func() {
+		q := col.Queue[[4]int8](lib.Notation()).MakeWithCapacity(2)
+		q.AddValue([4]int8{})
+		q.RemoveHead()
+		q.CloseQueue()
+	},
+	func() {
+		q := col.Queue[[5]int8](lib.Notation()).MakeWithCapacity(2)
+		q.AddValue([5]int8{})
+		q.RemoveHead()
+		q.CloseQueue()
+	},
+	func() {
+		q := col.Queue[[6]int8](lib.Notation()).MakeWithCapacity(2)
+		q.AddValue([6]int8{})
+		q.RemoveHead()
+		q.CloseQueue()
+	},
+	func() {
+		q := col.Queue[[7]int8](lib.Notation()).MakeWithCapacity(2)
+		q.AddValue([7]int8{})
+		q.RemoveHead()
+		q.CloseQueue()
+	},
+	func() {
+		q := col.Queue[[8]int8](lib.Notation()).MakeWithCapacity(2)
+		q.AddValue([8]int8{})
+		q.RemoveHead()
+		q.CloseQueue()
+	},
+	func() {
+		q := col.Queue[[9]int8](lib.Notation()).MakeWithCapacity(2)
+		q.AddValue([9]int8{})
+		q.RemoveHead()
+		q.CloseQueue()
+	},
+	func() {
+		q := col.Queue[[10]int8](lib.Notation()).MakeWithCapacity(2)
+		q.AddValue([10]int8{})
+		q.RemoveHead()
+		q.CloseQueue()
+	},
+	func() {
+		q := col.Queue[[11]int8](lib.Notation()).MakeWithCapacity(2)
+		q.AddValue([11]int8{})
+		q.RemoveHead()
+		q.CloseQueue()
+	},
+	func() {
+		q := col.Queue[[12]int8](lib.Notation()).MakeWithCapacity(2)
+		q.AddValue([12]int8{})
+		q.RemoveHead()
+		q.CloseQueue()
+	},
+	func() {
+		q := col.Queue[[13]int8](lib.Notation()).MakeWithCapacity(2)
+		q.AddValue([13]int8{})
+		q.RemoveHead()
+		q.CloseQueue()
+	},
+	func() {
+		q := col.Queue[[14]int8](lib.Notation()).MakeWithCapacity(2)
+		q.AddValue([14]int8{})
+		q.RemoveHead()
+		q.CloseQueue()
+	},
+	func() {
+		q := col.Queue[[15]int8](lib.Notation()).MakeWithCapacity(2)
+		q.AddValue([15]int8{})
+		q.RemoveHead()
+		q.CloseQueue()
+	},
+	func() {
+		q := col.Queue[[16]int8](lib.Notation()).MakeWithCapacity(2)
+		q.AddValue([16]int8{})
+		q.RemoveHead()
+		q.CloseQueue()
+	},
+	func() {
+		q := col.Queue[[17]int8](lib.Notation()).MakeWithCapacity(2)
+		q.AddValue([17]int8{})
+		q.RemoveHead()
+		q.CloseQueue()
+	},
+	func() {
+		q := col.Queue[[18]int8](lib.Notation()).MakeWithCapacity(2)
+		q.AddValue([18]int8{})
+		q.RemoveHead()
+		q.CloseQueue()
+	},
+	func() {
+		q := col.Queue[[19]int8](lib.Notation()).MakeWithCapacity(2)
+		q.AddValue([19]int8{})
+		q.RemoveHead()
+		q.CloseQueue()
+	},
+	func() {
+		q := col.Queue[[20]int8](lib.Notation()).MakeWithCapacity(2)
+		q.AddValue([20]int8{})
+		q.RemoveHead()
+		q.CloseQueue()
+	},
+	func() {
+		q := col.Queue[[21]int8](lib.Notation()).MakeWithCapacity(2)
+		q.AddValue([21]int8{})
+		q.RemoveHead()
+		q.CloseQueue()
+	},
+	func() {
+		q := col.Queue[[22]int8](lib.Notation()).MakeWithCapacity(2)
+		q.AddValue([22]int8{})
+		q.RemoveHead()
+		q.CloseQueue()
+	},
+	func() {
+		q := col.Queue[[23]int8](lib.Notation()).MakeWithCapacity(2)
+		q.AddValue([23]int8{})
+		q.RemoveHead()
+		q.CloseQueue()
+	},
+	func() {
+		q := col.Queue[[24]int8](lib.Notation()).MakeWithCapacity(2)
+		q.AddValue([24]int8{})
+		q.RemoveHead()
+		q.CloseQueue()
+	},
+	func() {
+		q := col.Queue[[25]int8](lib.Notation()).MakeWithCapacity(2)
+		q.AddValue([25]int8{})
+		q.RemoveHead()
+		q.CloseQueue()
+	},
+	func() {
+		q := col.Queue[[26]int8](lib.Notation()).MakeWithCapacity(2)
+		q.AddValue([26]int8{})
+		q.RemoveHead()
+		q.CloseQueue()
+	},
+	func() {
+		q := col.Queue[[27]int8](lib.Notation()).MakeWithCapacity(2)
+		q.AddValue([27]int8{})
+		q.RemoveHead()
+		q.CloseQueue()
+	},
+	func() {
+		q := col.Queue[[28]int8](lib.Notation()).MakeWithCapacity(2)
+		q.AddValue([28]int8{})
+		q.RemoveHead()
+		q.CloseQueue()
+	},
+	func() {
+		q := col.Queue[[29]int8](lib.Notation()).MakeWithCapacity(2)
+		q.AddValue([29]int8{})
+		q.RemoveHead()
+		q.CloseQueue()
+	},
+	func() {
+		q := col.Queue[[30]int8](lib.Notation()).MakeWithCapacity(2)
+		q.AddValue([30]int8{})
+		q.RemoveHead()
+		q.CloseQueue()
+	},
+	func() {
+		q := col.Queue[[31]int8](lib.Notation()).MakeWithCapacity(2)
+		q.AddValue([31]int8{})
+		q.RemoveHead()
+		q.CloseQueue()
+	},
+	func() {
+		q := col.Queue[[32]int8](lib.Notation()).MakeWithCapacity(2)
+		q.AddValue([32]int8{})
+		q.RemoveHead()
+		q.CloseQueue()
+	},
+	func() {
+		q := col.Queue[[33]int8](lib.Notation()).MakeWithCapacity(2)
+		q.AddValue([33]int8{})
+		q.RemoveHead()
+		q.CloseQueue()
+	},
+	func() {
+		q := col.Queue[[34]int8](lib.Notation()).MakeWithCapacity(2)
+		q.AddValue([34]int8{})
+		q.RemoveHead()
+		q.CloseQueue()
+	},
+	func() {
+		q := col.Queue[[35]int8](lib.Notation()).MakeWithCapacity(2)
+		q.AddValue([35]int8{})
+		q.RemoveHead()
+		q.CloseQueue()
+	},
+	func() {
+		q := col.Queue[[36]int8](lib.Notation()).MakeWithCapacity(2)
+		q.AddValue([36]int8{})
+		q.RemoveHead()
+		q.CloseQueue()
+	},
+	func() {
+		q := col.Queue[[37]int8](lib.Notation()).MakeWithCapacity(2)
+		q.AddValue([37]int8{})
+		q.RemoveHead()
+		q.CloseQueue()
+	},
+	func() {
+		q := col.Queue[[38]int8](lib.Notation()).MakeWithCapacity(2)
+		q.AddValue([38]int8{})
+		q.RemoveHead()
+		q.CloseQueue()
+	},
+	func() {
+		q := col.Queue[[39]int8](lib.Notation()).MakeWithCapacity(2)
+		q.AddValue([39]int8{})
+		q.RemoveHead()
+		q.CloseQueue()
+	},
+	func() {
+		q := col.Queue[[40]int8](lib.Notation()).MakeWithCapacity(2)
+		q.AddValue([40]int8{})
+		q.RemoveHead()
+		q.CloseQueue()
+	},
+	func() {
+		q := col.Queue[[41]int8](lib.Notation()).MakeWithCapacity(2)
+		q.AddValue([41]int8{})
+		q.RemoveHead()
+		q.CloseQueue()
+	},
+	func() {
+		q := col.Queue[[42]int8](lib.Notation()).MakeWithCapacity(2)
+		q.AddValue([42]int8{})
+		q.RemoveHead()
+		q.CloseQueue()
+	},
+	func() {
+		q := col.Queue[[43]int8](lib.Notation()).MakeWithCapacity(2)
+		q.AddValue([43]int8{})
+		q.RemoveHead()
+		q.CloseQueue()
+	},
+	func() {
+		q := col.Queue[[44]int8](lib.Notation()).MakeWithCapacity(2)
+		q.AddValue([44]int8{})
+		q.RemoveHead()
+		q.CloseQueue()
+	},
+	func() {
+		q := col.Queue[[45]int8](lib.Notation()).MakeWithCapacity(2)
+		q.AddValue([45]int8{})
+		q.RemoveHead()
+		q.CloseQueue()
+	},
+	func() {
+		q := col.Queue[[46]int8](lib.Notation()).MakeWithCapacity(2)
+		q.AddValue([46]int8{})
+		q.RemoveHead()
+		q.CloseQueue()
+	},
+	func() {
+		q := col.Queue[[47]int8](lib.Notation()).MakeWithCapacity(2)
+		q.AddValue([47]int8{})
+		q.RemoveHead()
+		q.CloseQueue()
+	},
+	func() {
+		q := col.Queue[[48]int8](lib.Notation()).MakeWithCapacity(2)
+		q.AddValue([48]int8{})
+		q.RemoveHead()
+		q.CloseQueue()
+	},
+}
+
+var nextFreshQueueUser atomic.Int64
+
+func freshQueueClasses(n int) {
+	for i := 0; i < n; i++ {
+		k := int(nextFreshQueueUser.Add(1)) - 1
+		if k >= len(freshQueueUsers) {
+			return
+		}
+		freshQueueUsers[k]()
+		runtime.Gosched()
+	}
+}
+
 func execStress(c stressCase, _ core.Source) (res core.Result) {
 	q := col.Queue[int](lib.Notation()).MakeWithCapacity(c.Cap)
 	var producers, all sync.WaitGroup
@@ -73,6 +380,18 @@ func execStress(c stressCase, _ core.Source) (res core.Result) {
 		f()
 	}
 	consumed := make([][]int, c.Consumers)
+	all.Add(1)
+	go guard("a goroutine using queues of element types that are new to the process", func() { freshQueueClasses(3) })
+	all.Add(1)
+	go guard("a goroutine making short-lived queues of the element type under test", func() {
+		for i := 0; i < 300; i++ {
+			short := col.Queue[int](lib.Notation()).MakeWithCapacity(1)
+			short.AddValue(i)
+			if v, ok := short.RemoveHead(); !ok || v != i {
+				fail("C04/stress/short-lived-queue", "a queue of capacity 1 made while other queues are busy handed out %d, %v for %d", v, ok, i)
+			}
+		}
+	})
 	for p := 0; p < c.Producers; p++ {
 		p := p
 		producers.Add(1)
@@ -251,8 +570,16 @@ func (g *countingGroup) Add(delta int) {
 	g.WaitGroup.Add(delta)
 }
 
+// fan-outs: 2..8, and now and then a wide one on both sides of 64 and 128
+func genFanOut(s core.Source) int {
+	if s.Choose(6, "fanclass") == 0 {
+		return []int{63, 64, 65, 70, 129}[s.Choose(5, "fanout")]
+	}
+	return 2 + s.Choose(7, "fanout")
+}
+
 func genPipeStress(s core.Source) pipeStressCase {
-	c := pipeStressCase{Topology: core.Pick(s, []string{"Fork", "Split", "SplitJoin"}, "topology"), FanOut: 2 + s.Choose(7, "fanout"), Cap: genCapacity(s, 4),
+	c := pipeStressCase{Topology: core.Pick(s, []string{"Fork", "Split", "SplitJoin"}, "topology"), FanOut: genFanOut(s), Cap: genCapacity(s, 4),
 		Burst: 1 + s.Choose(16, "burst"), Lag: s.Choose(3, "lag") == 0}
 	switch s.Choose(4, "lenclass") {
 	case 0:
